@@ -200,9 +200,12 @@ fn op_write(payload: &str) -> String {
     if f.len() < 3 {
         return "{\"error\":\"bad payload\"}".to_string();
     }
-    let tree = match parse_doc(f[0], f[2]) {
-        Ok(t) => t,
-        Err(e) => return format!("{{\"error\":{}}}", esc(&e)),
+    // a panic while PARSING is a matter of C01, not of the writer
+    let parsed = std::panic::catch_unwind(|| parse_doc(f[0], f[2]));
+    let tree = match parsed {
+        Ok(Ok(t)) => t,
+        Ok(Err(e)) => return format!("{{\"error\":{}}}", esc(&e)),
+        Err(e) => return format!("{{\"error\":{}}}", esc(&format!("parse panic: {}", panic_msg(e)))),
     };
     let wo = parse_wopts(f[1]);
     let text = tree.to_string(&wo);
